@@ -126,6 +126,11 @@ FIXED += [
   'Pack stored "l -> sub/deep/top/../outside/file.txt" (with "sub/deep/top -> ../..") as a link although it leads out of the source tree'),
 ]
 
+FIXED += [
+ ("C15", "unexpected-entry", "fix: ignored PAX header entries no longer cause directories to be created",
+  'a PAX global header entry named "x/pax_global_header" left an empty directory "x" in dst, and one named like an earlier link entry removed that link, although header records are not extracted'),
+]
+
 OPEN = [
  # (property, key, what fails)
  ("C06", "edge-whitespace",
